@@ -145,6 +145,8 @@ func spinePayload(id int) []byte {
 type stubProvider struct {
 	x    *Ctx
 	name string
+	// quiet: an earlier connection of the process (warm-up), not the unit under test - no events
+	quiet bool
 
 	mu           sync.Mutex
 	paired       bool
@@ -157,6 +159,13 @@ type stubProvider struct {
 	onState func(st model.ShipState)
 }
 
+func (p *stubProvider) ev(kind, a, b string, n int) int {
+	if p.quiet {
+		return 0
+	}
+	return p.x.Ev(kind, a, b, n)
+}
+
 func (p *stubProvider) set(f func()) {
 	p.mu.Lock()
 	f()
@@ -167,7 +176,7 @@ func (p *stubProvider) IsRemoteServiceForSKIPaired(string) bool {
 	p.mu.Lock()
 	v := p.paired
 	p.mu.Unlock()
-	p.x.Ev("q-paired", p.name, strconv.FormatBool(v), 0)
+	p.ev("q-paired", p.name, strconv.FormatBool(v), 0)
 	return v
 }
 
@@ -175,16 +184,16 @@ func (p *stubProvider) IsAutoAcceptEnabled() bool {
 	p.mu.Lock()
 	v := p.autoAccept
 	p.mu.Unlock()
-	p.x.Ev("q-auto", p.name, strconv.FormatBool(v), 0)
+	p.ev("q-auto", p.name, strconv.FormatBool(v), 0)
 	return v
 }
 
 func (p *stubProvider) HandleConnectionClosed(c api.ShipConnectionInterface, completed bool) {
-	p.x.Ev("closed", p.name, strconv.FormatBool(completed), 0)
+	p.ev("closed", p.name, strconv.FormatBool(completed), 0)
 }
 
 func (p *stubProvider) ReportServiceShipID(ski string, id string) {
-	p.x.Ev("shipid", p.name, id, 0)
+	p.ev("shipid", p.name, id, 0)
 }
 
 func (p *stubProvider) AllowWaitingForTrust(string) bool {
@@ -195,21 +204,21 @@ func (p *stubProvider) AllowWaitingForTrust(string) bool {
 }
 
 func (p *stubProvider) HandleShipHandshakeStateUpdate(ski string, st model.ShipState) {
-	p.x.Ev("state", p.name, errStr(st.Error), int(st.State))
+	p.ev("state", p.name, errStr(st.Error), int(st.State))
 	if p.onState != nil {
 		p.onState(st)
 	}
 }
 
 func (p *stubProvider) SetupRemoteDevice(ski string, w api.ShipConnectionDataWriterInterface) api.ShipConnectionDataReaderInterface {
-	p.x.Ev("setup", p.name, "", 0)
+	p.ev("setup", p.name, "", 0)
 	p.mu.Lock()
 	p.writer = w
 	p.mu.Unlock()
 	if p.onSetup != nil {
 		p.onSetup(w)
 	}
-	p.x.Ev("setup-ret", p.name, "", 0)
+	p.ev("setup-ret", p.name, "", 0)
 	return &stubReader{x: p.x, name: p.name}
 }
 
@@ -226,8 +235,9 @@ func (r *stubReader) HandleShipPayloadMessage(b []byte) {
 
 // stubWriter stands in for the websocket layer below one ShipConnection.
 type stubWriter struct {
-	x    *Ctx
-	name string
+	x     *Ctx
+	name  string
+	quiet bool // see stubProvider.quiet
 
 	mu       sync.Mutex
 	reader   api.WebsocketDataReaderInterface
@@ -237,6 +247,13 @@ type stubWriter struct {
 	failAt   int  // 1-based index of the write that fails (0 = none)
 	failOnce bool // true: only that write fails, the transport stays open
 	onTx     func(kind string, b []byte)
+}
+
+func (w *stubWriter) ev(kind, a, b string, n int) int {
+	if w.quiet {
+		return 0
+	}
+	return w.x.Ev(kind, a, b, n)
 }
 
 func (w *stubWriter) InitDataProcessing(r api.WebsocketDataReaderInterface) {
@@ -252,7 +269,7 @@ func (w *stubWriter) WriteMessageToWebsocketConnection(b []byte) error {
 	w.mu.Lock()
 	if w.closed {
 		w.mu.Unlock()
-		w.x.Ev("tx-rejected", w.name, classify(b), 0)
+		w.ev("tx-rejected", w.name, classify(b), 0)
 		return errStubClosed
 	}
 	w.nWrites++
@@ -263,7 +280,7 @@ func (w *stubWriter) WriteMessageToWebsocketConnection(b []byte) error {
 		}
 		w.mu.Unlock()
 		w.x.S.Fault("ship-write-fail")
-		w.x.Ev("tx-failed", w.name, classify(b), w.nWrites)
+		w.ev("tx-failed", w.name, classify(b), w.nWrites)
 		return errStubWrite
 	}
 	cb := w.onTx
@@ -273,7 +290,7 @@ func (w *stubWriter) WriteMessageToWebsocketConnection(b []byte) error {
 	if kind == "data" {
 		n = datagramID(b)
 	}
-	w.x.Ev("tx", w.name, kind, n)
+	w.ev("tx", w.name, kind, n)
 	if cb != nil {
 		cb(kind, append([]byte(nil), b...))
 	}
@@ -285,7 +302,7 @@ func (w *stubWriter) CloseDataConnection(code int, reason string) {
 	already := w.closed
 	w.closed = true
 	w.mu.Unlock()
-	w.x.Ev("tclose", w.name, reason, code)
+	w.ev("tclose", w.name, reason, code)
 	_ = already
 }
 
